@@ -210,130 +210,529 @@ theorem cmpF32_eq (x y : BitVec 32) : cmpF32 x y = cmpInt (fkey32 x) (fkey32 y) 
     rw [if_neg (by omega), if_pos (by omega)]
   · simp [hx, hy]
 
-/-! ### CompareAny = kind, then numeric key, then string key -/
+/-! ### numbers: `compareNumbers` is the numeric order -/
 
-def numKey : Val → Int
-  | .int _ v => v
-  | .uint _ v => v
-  | .f32 x => fkey32 x
-  | .f64 x => fkey64 x
-  | _ => 0
+theorem K_pos : 0 < K := by unfold K; exact Int.pow_pos (by decide)
+
+theorem cmpInt_congr {a b c d : Int} (h1 : a < b ↔ c < d) (h2 : b < a ↔ d < c) : cmpInt a b = cmpInt c d := by
+  unfold cmpInt
+  by_cases x : a < b
+  · rw [if_pos x, if_pos (h1.mp x)]
+  · rw [if_neg x, if_neg (fun h => x (h1.mpr h))]
+    by_cases y : b < a
+    · rw [if_pos y, if_pos (h2.mp y)]
+    · rw [if_neg y, if_neg (fun h => y (h2.mpr h))]
+
+theorem mul_K_lt {a b : Int} : a * K < b * K ↔ a < b :=
+  ⟨fun h => Int.lt_of_mul_lt_mul_right h (Int.le_of_lt K_pos), fun h => Int.mul_lt_mul_of_pos_right h K_pos⟩
+
+theorem cmpInt_mul (a b : Int) : cmpInt (a * K) (b * K) = cmpInt a b :=
+  cmpInt_congr mul_K_lt mul_K_lt
+
+theorem truncK_bounds (s : Int) : truncK s * K - K < s ∧ s < truncK s * K + K := by
+  have hK := K_pos
+  unfold truncK
+  split
+  · have h1 := Int.mul_ediv_add_emod s K
+    have h2 := Int.emod_nonneg s (Int.ne_of_gt hK)
+    have h3 := Int.emod_lt_of_pos s hK
+    have h4 : s / K * K = K * (s / K) := Int.mul_comm _ _
+    omega
+  · have h1 := Int.mul_ediv_add_emod (-s) K
+    have h2 := Int.emod_nonneg (-s) (Int.ne_of_gt hK)
+    have h3 := Int.emod_lt_of_pos (-s) hK
+    have h4 : -(-s / K) * K = -(K * (-s / K)) := by rw [Int.neg_mul, Int.mul_comm]
+    omega
+
+theorem mag64_lt {a b : Nat} (h : a < b) : mag64 a < mag64 b := by
+  unfold mag64
+  simp only
+  have hdiv : a / 2 ^ 52 < b / 2 ^ 52 ∨ (a / 2 ^ 52 = b / 2 ^ 52 ∧ a % 2 ^ 52 < b % 2 ^ 52) := by omega
+  have hma : a % 2 ^ 52 < 2 ^ 52 := Nat.mod_lt _ (by decide)
+  have hmb : b % 2 ^ 52 < 2 ^ 52 := Nat.mod_lt _ (by decide)
+  generalize a / 2 ^ 52 = ea at *
+  generalize b / 2 ^ 52 = eb at *
+  generalize a % 2 ^ 52 = ma at *
+  generalize b % 2 ^ 52 = mb at *
+  rcases hdiv with hlt | ⟨heq, hm⟩
+  · have hebpos : eb ≠ 0 := by omega
+    rw [if_neg hebpos]
+    have hQ : 0 < 2 ^ (eb - 1) := Nat.two_pow_pos _
+    have hb : 2 ^ 52 * 2 ^ (eb - 1) ≤ (2 ^ 52 + mb) * 2 ^ (eb - 1) := Nat.mul_le_mul_right _ (by omega)
+    by_cases hea : ea = 0
+    · rw [if_pos hea]
+      omega
+    · rw [if_neg hea]
+      have hPQ : 2 ^ (ea - 1) * 2 ≤ 2 ^ (eb - 1) := by
+        rw [← Nat.pow_succ]
+        exact Nat.pow_le_pow_right (by decide) (by omega)
+      have hP : 0 < 2 ^ (ea - 1) := Nat.two_pow_pos _
+      have ha : (2 ^ 52 + ma) * 2 ^ (ea - 1) < 2 ^ 53 * 2 ^ (ea - 1) := Nat.mul_lt_mul_of_pos_right (by omega) hP
+      omega
+  · subst heq
+    by_cases hea : ea = 0
+    · simp [hea]; exact hm
+    · rw [if_neg hea, if_neg hea]
+      exact Nat.mul_lt_mul_of_pos_right (by omega) (Nat.two_pow_pos _)
+
+theorem cmpIntegerFloat_nan (n s lo hi : Int) : cmpIntegerFloat n true s lo hi = 1 := by
+  simp [cmpIntegerFloat]
+
+theorem cmpIntegerFloat_eq (n s lo hi : Int) (hlo : lo ≤ n) (hhi : n < hi) :
+    cmpIntegerFloat n false s lo hi = cmpInt (n * K) s := by
+  have hK := K_pos
+  unfold cmpIntegerFloat
+  simp only [Bool.false_eq_true, false_or]
+  by_cases h1 : s < lo * K
+  · rw [if_pos h1]
+    have : lo * K ≤ n * K := Int.mul_le_mul_of_nonneg_right hlo (Int.le_of_lt hK)
+    unfold cmpInt; rw [if_neg (by omega), if_pos (by omega)]
+  rw [if_neg h1]
+  by_cases h2 : hi * K ≤ s
+  · rw [if_pos h2]
+    have : n * K < hi * K := Int.mul_lt_mul_of_pos_right hhi hK
+    unfold cmpInt; rw [if_pos (by omega)]
+  rw [if_neg h2]
+  obtain ⟨b1, b2⟩ := truncK_bounds s
+  generalize truncK s = t at *
+  by_cases h3 : cmpInt n t = 0
+  · have : n = t := (by unfold cmpInt at h3; split at h3 <;> (try split at h3) <;> omega)
+    subst this
+    rw [if_neg (by simpa using h3)]
+  · rw [if_pos h3]
+    unfold cmpInt
+    by_cases h4 : n < t
+    · have : n * K ≤ (t - 1) * K := Int.mul_le_mul_of_nonneg_right (by omega) (Int.le_of_lt hK)
+      rw [Int.sub_mul, Int.one_mul] at this
+      rw [if_pos h4, if_pos (by omega)]
+    · have h5 : t < n := by
+        unfold cmpInt at h3; rw [if_neg h4] at h3
+        by_cases h6 : t < n
+        · exact h6
+        · rw [if_neg h6] at h3; exact absurd rfl h3
+      have : (t + 1) * K ≤ n * K := Int.mul_le_mul_of_nonneg_right (by omega) (Int.le_of_lt hK)
+      rw [Int.add_mul, Int.one_mul] at this
+      rw [if_neg h4, if_pos h5, if_neg (by omega), if_pos (by omega)]
+
+theorem mag32_lt {a b : Nat} (h : a < b) (hb : b < 2 ^ 31) : mag32 a < mag32 b := by
+  unfold mag32
+  simp only
+  have hdiv : a / 2 ^ 23 < b / 2 ^ 23 ∨ (a / 2 ^ 23 = b / 2 ^ 23 ∧ a % 2 ^ 23 < b % 2 ^ 23) := by omega
+  have hma : a % 2 ^ 23 < 2 ^ 23 := Nat.mod_lt _ (by decide)
+  have hmb : b % 2 ^ 23 < 2 ^ 23 := Nat.mod_lt _ (by decide)
+  have heb : b / 2 ^ 23 ≤ 255 := by omega
+  generalize a / 2 ^ 23 = ea at *
+  generalize b / 2 ^ 23 = eb at *
+  generalize a % 2 ^ 23 = ma at *
+  generalize b % 2 ^ 23 = mb at *
+  have hinf : mag64 (2047 * 2 ^ 52) = 2 ^ 52 * 2 ^ 2046 := by
+    unfold mag64
+    simp only [Nat.mul_div_cancel _ (Nat.two_pow_pos 52), Nat.mul_mod_left]
+    rw [if_neg (by decide), Nat.add_zero, show 2047 - 1 = 2046 from rfl]
+  rw [hinf]
+  have hR : 0 < 2 ^ 925 := Nat.two_pow_pos _
+  -- a finite float32 stays below 2^1202 ≤ the float64 infinity
+  have hfin : ∀ e m, e ≠ 0 → e < 255 → m < 2 ^ 23 → (2 ^ 23 + m) * 2 ^ (e - 1) * 2 ^ 925 < 2 ^ 52 * 2 ^ 2046 := by
+    intro e m he0 he hm
+    have h1 : (2 ^ 23 + m) * 2 ^ (e - 1) < 2 ^ 24 * 2 ^ (e - 1) := Nat.mul_lt_mul_of_pos_right (by omega) (Nat.two_pow_pos _)
+    have h2 : 2 ^ (e - 1) ≤ 2 ^ 253 := Nat.pow_le_pow_right (by decide) (by omega)
+    have h3 : (2 ^ 23 + m) * 2 ^ (e - 1) < 2 ^ 24 * 2 ^ 253 := by omega
+    have h4 := Nat.mul_lt_mul_of_pos_right h3 hR
+    have h5 : 2 ^ 24 * 2 ^ 253 * 2 ^ 925 ≤ 2 ^ 52 * 2 ^ 2046 := by
+      rw [← Nat.pow_add, ← Nat.pow_add, ← Nat.pow_add]; exact Nat.pow_le_pow_right (by decide) (by decide)
+    omega
+  have hsub : ∀ m, m < 2 ^ 23 → m * 2 ^ 925 < 2 ^ 23 * 2 ^ 925 := fun m hm => Nat.mul_lt_mul_of_pos_right hm hR
+  rcases hdiv with hlt | ⟨heq, hm⟩
+  · have hebpos : eb ≠ 0 := by omega
+    rw [if_neg hebpos]
+    by_cases hea : ea = 0
+    · rw [if_pos hea]
+      have h0 := hsub ma hma
+      by_cases hbf : eb < 255
+      · rw [if_pos hbf]
+        have h1 : 2 ^ 23 * 1 ≤ (2 ^ 23 + mb) * 2 ^ (eb - 1) := Nat.mul_le_mul (by omega) (Nat.two_pow_pos _)
+        have h2 := Nat.mul_le_mul_right (2 ^ 925) h1
+        omega
+      · rw [if_neg hbf]
+        have h5 : 2 ^ 23 * 2 ^ 925 ≤ 2 ^ 52 * 2 ^ 2046 := by
+          rw [← Nat.pow_add, ← Nat.pow_add]; exact Nat.pow_le_pow_right (by decide) (by decide)
+        omega
+    · rw [if_neg hea, if_pos (by omega)]
+      by_cases hbf : eb < 255
+      · rw [if_pos hbf]
+        have hPQ : 2 ^ (ea - 1) * 2 ≤ 2 ^ (eb - 1) := by
+          rw [← Nat.pow_succ]
+          exact Nat.pow_le_pow_right (by decide) (by omega)
+        have ha : (2 ^ 23 + ma) * 2 ^ (ea - 1) < 2 ^ 24 * 2 ^ (ea - 1) := Nat.mul_lt_mul_of_pos_right (by omega) (Nat.two_pow_pos _)
+        have hb' : 2 ^ 23 * 2 ^ (eb - 1) ≤ (2 ^ 23 + mb) * 2 ^ (eb - 1) := Nat.mul_le_mul_right _ (by omega)
+        exact Nat.mul_lt_mul_of_pos_right (by omega) hR
+      · rw [if_neg hbf]
+        have := hfin ea ma hea (by omega) hma
+        omega
+  · subst heq
+    by_cases hea : ea = 0
+    · rw [if_pos hea, if_pos hea]; exact Nat.mul_lt_mul_of_pos_right hm hR
+    · rw [if_neg hea, if_neg hea]
+      by_cases hbf : ea < 255
+      · rw [if_pos hbf, if_pos hbf]
+        exact Nat.mul_lt_mul_of_pos_right (Nat.mul_lt_mul_of_pos_right (by omega) (Nat.two_pow_pos _)) hR
+      · rw [if_neg hbf, if_neg hbf]; omega
+
+/-- the place of NaN: below every number -/
+def nanKey : Int := -(2 ^ 2100)
+
+/-- the numeric order: the exact value times `2^1074`; NaN below everything (as `cmp.Compare` has it) -/
+def numOrd : Num → Int
+  | .int v => v * K
+  | .uint v => (v : Int) * K
+  | .flt nan s => if nan then nanKey else s
+
+/-- the ranges of what `Int()`, `Uint()`, `Float()` return -/
+def Num.WF : Num → Prop
+  | .int v => -(2 ^ 63) ≤ v ∧ v < 2 ^ 63
+  | .uint v => v < 2 ^ 64
+  | .flt _ s => nanKey < s
+
+theorem nanKey_lt_mul {n : Int} (h : -(2 ^ 64) ≤ n) : nanKey < n * K := by
+  have h1 : -(2 ^ 64) * K ≤ n * K := Int.mul_le_mul_of_nonneg_right h (Int.le_of_lt K_pos)
+  have h2 : nanKey < -(2 ^ 64) * K := by
+    unfold nanKey K
+    rw [Int.neg_mul, ← Int.pow_add]
+    apply Int.neg_lt_neg
+    have : (2 : Nat) ^ (64 + 1074) < 2 ^ 2100 := Nat.pow_lt_pow_right (by decide) (by decide)
+    exact_mod_cast this
+  omega
+
+theorem mag64_zero : mag64 0 = 0 := by simp [mag64]
+theorem mag32_zero : mag32 0 = 0 := by simp [mag32]
+
+theorem mag64_bound {b : Nat} (hb : b < 2 ^ 63) : mag64 b < 2 ^ 2099 := by
+  have h1 : mag64 b < mag64 (2 ^ 63) := mag64_lt hb
+  have h2 : mag64 (2 ^ 63) = 2 ^ 52 * 2 ^ 2047 := by
+    unfold mag64
+    have e1 : (2 : Nat) ^ 63 / 2 ^ 52 = 2048 := by decide
+    have e2 : (2 : Nat) ^ 63 % 2 ^ 52 = 0 := by decide
+    simp only [e1, e2]
+    rw [if_neg (by decide), Nat.add_zero, show 2048 - 1 = 2047 from rfl]
+  rw [h2, ← Nat.pow_add] at h1
+  exact h1
+
+theorem mag32_bound {b : Nat} (hb : b < 2 ^ 31) : mag32 b < 2 ^ 2099 := by
+  have h1 : mag32 b ≤ mag32 (2 ^ 31 - 1) := by
+    by_cases h : b = 2 ^ 31 - 1
+    · rw [h]; exact Nat.le_refl _
+    · exact Nat.le_of_lt (mag32_lt (by omega) (by decide))
+  have h2 : mag32 (2 ^ 31 - 1) = 2 ^ 52 * 2 ^ 2046 + (2 ^ 23 - 1) := by
+    unfold mag32 mag64
+    have e1 : ((2 : Nat) ^ 31 - 1) / 2 ^ 23 = 255 := by decide
+    have e2 : ((2 : Nat) ^ 31 - 1) % 2 ^ 23 = 2 ^ 23 - 1 := by decide
+    simp only [e1, e2, Nat.mul_div_cancel _ (Nat.two_pow_pos 52), Nat.mul_mod_left]
+    rw [if_neg (by decide), if_neg (by decide), if_neg (by decide), Nat.add_zero, show 2047 - 1 = 2046 from rfl]
+  have h3 : 2 ^ 52 * 2 ^ 2046 + 2 ^ 52 * 2 ^ 2046 = 2 ^ 2099 := by
+    rw [← Nat.pow_add, ← Nat.two_mul, ← Nat.pow_succ']
+  have h4 : (2 : Nat) ^ 23 - 1 < 2 ^ 52 * 2 ^ 2046 := by
+    have : (2 : Nat) ^ 23 ≤ 2 ^ 52 * 2 ^ 2046 := by rw [← Nat.pow_add]; exact Nat.pow_le_pow_right (by decide) (by decide)
+    omega
+  omega
+
+theorem nanKey_lt_of_mag {m : Nat} (h : m < 2 ^ 2099) (neg : Bool) : nanKey < (if neg then -(m : Int) else (m : Int)) := by
+  have h1 : ((2 : Nat) ^ 2099 : Int) < 2 ^ 2100 := by
+    have : (2 : Nat) ^ 2099 < 2 ^ 2100 := Nat.pow_lt_pow_right (by decide) (by decide)
+    exact_mod_cast this
+  have h2 : (m : Int) < ((2 ^ 2099 : Nat) : Int) := by exact_mod_cast h
+  unfold nanKey
+  cases neg <;> simp <;> omega
+
+theorem scaled64_gt (x : BitVec 64) : nanKey < scaled64 x :=
+  nanKey_lt_of_mag (mag64_bound (by unfold F64.mag; exact Nat.mod_lt _ (by decide))) _
+
+theorem scaled32_gt (x : BitVec 32) : nanKey < scaled32 x :=
+  nanKey_lt_of_mag (mag32_bound (by unfold F32.mag; exact Nat.mod_lt _ (by decide))) _
+
+theorem numOf_wf {a : Val} {x : Num} (h : numOf a = some x) : x.WF := by
+  cases a <;> simp [numOf] at h <;> subst h
+  · rename_i w v
+    have h1 := BitVec.le_toInt v
+    have h2 := @BitVec.toInt_lt 64 v
+    exact ⟨by simpa using h1, by simpa using h2⟩
+  · rename_i w v; exact v.isLt
+  · exact scaled32_gt _
+  · exact scaled64_gt _
+
+theorem cmpInt_neg (a b : Int) : -(cmpInt a b) = cmpInt b a := by rw [cmpInt_antisymm]; omega
+
+/-- `compareNumbers` is the numeric order -/
+theorem cmpNumbers_eq (x y : Num) (hx : x.WF) (hy : y.WF) : cmpNumbers x y = cmpInt (numOrd x) (numOrd y) := by
+  have hK := K_pos
+  cases x <;> cases y <;> simp only [cmpNumbers, numOrd, Num.WF] at *
+  · exact (cmpInt_mul _ _).symm
+  · rename_i a b
+    rw [cmpInt_mul]
+    split
+    · unfold cmpInt; rw [if_pos (by omega)]
+    · rfl
+  · rename_i a nb sb
+    cases nb
+    · simp only [Bool.false_eq_true, if_false]; exact cmpIntegerFloat_eq _ _ _ _ hx.1 hx.2
+    · simp only [if_true, cmpIntegerFloat_nan]
+      have := nanKey_lt_mul (n := a) (by omega)
+      unfold cmpInt; rw [if_neg (by omega), if_pos this]
+  · rename_i a b
+    rw [cmpInt_mul]
+    split
+    · unfold cmpInt; rw [if_neg (by omega), if_pos (by omega)]; rfl
+    · exact cmpInt_neg _ _
+  · exact (cmpInt_mul _ _).symm
+  · rename_i a nb sb
+    cases nb
+    · simp only [Bool.false_eq_true, if_false]; exact cmpIntegerFloat_eq _ _ _ _ (by omega) (by omega)
+    · simp only [if_true, cmpIntegerFloat_nan]
+      have := nanKey_lt_mul (n := (a : Int)) (by omega)
+      unfold cmpInt; rw [if_neg (by omega), if_pos this]
+  · rename_i na sa b
+    cases na
+    · simp only [Bool.false_eq_true, if_false]; rw [cmpIntegerFloat_eq _ _ _ _ hy.1 hy.2]; exact cmpInt_neg _ _
+    · simp only [if_true, cmpIntegerFloat_nan]
+      have := nanKey_lt_mul (n := b) (by omega)
+      unfold cmpInt; rw [if_pos this]
+  · rename_i na sa b
+    cases na
+    · simp only [Bool.false_eq_true, if_false]; rw [cmpIntegerFloat_eq _ _ _ _ (by omega) (by omega)]; exact cmpInt_neg _ _
+    · simp only [if_true, cmpIntegerFloat_nan]
+      have := nanKey_lt_mul (n := (b : Int)) (by omega)
+      unfold cmpInt; rw [if_pos this]
+  · rename_i na sa nb sb
+    unfold cmpFlt
+    cases na <;> cases nb <;> simp only [Bool.false_eq_true, if_false, if_true]
+    · unfold cmpInt; rw [if_neg (by omega), if_pos hx]
+    · unfold cmpInt; rw [if_pos hy]
+    · unfold cmpInt; simp
+
+/-- a strictly increasing map of magnitudes that fixes 0 preserves the sign-magnitude order -/
+theorem smag_iso (g : Nat → Nat) (N : Nat) (hg : ∀ a b, a < b → b < N → g a < g b) (h0 : g 0 = 0)
+    (n1 n2 : Bool) (a b : Nat) (ha : a < N) (hb : b < N) :
+    ((if n1 then -(a : Int) else (a : Int)) < (if n2 then -(b : Int) else (b : Int))) ↔
+    ((if n1 then -(g a : Int) else (g a : Int)) < (if n2 then -(g b : Int) else (g b : Int))) := by
+  have i1 : a < b ↔ g a < g b := by
+    constructor
+    · intro h; exact hg a b h hb
+    · intro h
+      by_cases h' : a < b
+      · exact h'
+      · by_cases h'' : a = b
+        · subst h''; omega
+        · have := hg b a (by omega) ha; omega
+  have i2 : b < a ↔ g b < g a := by
+    constructor
+    · intro h; exact hg b a h ha
+    · intro h
+      by_cases h' : b < a
+      · exact h'
+      · by_cases h'' : a = b
+        · subst h''; omega
+        · have := hg a b (by omega) hb; omega
+  have z1 : a = 0 ↔ g a = 0 := by
+    constructor
+    · intro h; subst h; exact h0
+    · intro h
+      by_cases h' : a = 0
+      · exact h'
+      · have := hg 0 a (by omega) ha; omega
+  have z2 : b = 0 ↔ g b = 0 := by
+    constructor
+    · intro h; subst h; exact h0
+    · intro h
+      by_cases h' : b = 0
+      · exact h'
+      · have := hg 0 b (by omega) hb; omega
+  cases n1 <;> cases n2 <;> simp only [Bool.false_eq_true, if_false, if_true] <;> omega
+
+theorem key64_lt_iff (x y : BitVec 64) : F64.key x < F64.key y ↔ scaled64 x < scaled64 y := by
+  unfold F64.key scaled64
+  exact smag_iso mag64 (2 ^ 63) (fun a b h _ => mag64_lt h) mag64_zero _ _ _ _
+    (by unfold F64.mag; exact Nat.mod_lt _ (by decide)) (by unfold F64.mag; exact Nat.mod_lt _ (by decide))
+
+theorem key32_lt_iff (x y : BitVec 32) : F32.key x < F32.key y ↔ scaled32 x < scaled32 y := by
+  unfold F32.key scaled32
+  exact smag_iso mag32 (2 ^ 31) (fun a b h hb => mag32_lt h hb) mag32_zero _ _ _ _
+    (by unfold F32.mag; exact Nat.mod_lt _ (by decide)) (by unfold F32.mag; exact Nat.mod_lt _ (by decide))
+
+/-- `cmp.Compare` on two float64 is the order of the exact values (NaN first) -/
+theorem cmpF64_num (x y : BitVec 64) :
+    cmpF64 x y = cmpInt (numOrd (.flt (F64.isNaN x) (scaled64 x))) (numOrd (.flt (F64.isNaN y) (scaled64 y))) := by
+  have gx := scaled64_gt x
+  have gy := scaled64_gt y
+  unfold cmpF64 numOrd F64.lt
+  cases hx : F64.isNaN x <;> cases hy : F64.isNaN y <;> simp only [Bool.false_eq_true, if_false, if_true, Bool.not_false, Bool.true_and, decide_eq_true_eq]
+  · unfold cmpInt; simp only [key64_lt_iff]
+  · unfold cmpInt; rw [if_neg (by omega), if_pos gx]
+  · unfold cmpInt; rw [if_pos gy]
+  · unfold cmpInt; simp
+
+theorem cmpF32_num (x y : BitVec 32) :
+    cmpF32 x y = cmpInt (numOrd (.flt (F32.isNaN x) (scaled32 x))) (numOrd (.flt (F32.isNaN y) (scaled32 y))) := by
+  have gx := scaled32_gt x
+  have gy := scaled32_gt y
+  unfold cmpF32 numOrd F32.lt
+  cases hx : F32.isNaN x <;> cases hy : F32.isNaN y <;> simp only [Bool.false_eq_true, if_false, if_true, Bool.not_false, Bool.true_and, decide_eq_true_eq]
+  · unfold cmpInt; simp only [key32_lt_iff]
+  · unfold cmpInt; rw [if_neg (by omega), if_pos gx]
+  · unfold cmpInt; rw [if_pos gy]
+  · unfold cmpInt; simp
+
+/-! ### CompareAny = class, then numeric order, then string key -/
+
+/-- the key `CompareAny` orders numbers by (0 for everything else) -/
+def numKey (v : Val) : Int := match numOf v with | some x => numOrd x | none => 0
+
+/-- numbers form one class (they sit between `Bool` and the containers in `reflect.Kind` order);
+everything else is its `reflect.Kind` -/
+def classOf (v : Val) : Nat := match numOf v with | some _ => 2 | none => kindOf v
 
 def strKey : Val → Bytes
   | .str s => s
   | _ => []
 
-def cmpKind (a b : Val) : Int := cmpInt (kindOf a) (kindOf b)
+def cmpClass (a b : Val) : Int := cmpInt (classOf a) (classOf b)
 def cmpNum (a b : Val) : Int := cmpInt (numKey a) (numKey b)
 def cmpStrKey (a b : Val) : Int := cmpStr (strKey a) (strKey b)
 
-theorem kind_int (w : Nat) (v : Int) : 3 ≤ kindOf (.int w v) ∧ kindOf (.int w v) ≤ 6 := by
+theorem kind_int (w : Nat) (v : BitVec 64) : 3 ≤ kindOf (.int w v) ∧ kindOf (.int w v) ≤ 6 := by
   by_cases h1 : w = 8 <;> by_cases h2 : w = 16 <;> by_cases h3 : w = 32 <;> simp [kindOf, h1, h2, h3]
 
-theorem kind_uint (w : Nat) (v : Nat) : 8 ≤ kindOf (.uint w v) ∧ kindOf (.uint w v) ≤ 11 := by
+theorem kind_uint (w : Nat) (v : BitVec 64) : 8 ≤ kindOf (.uint w v) ∧ kindOf (.uint w v) ≤ 11 := by
   by_cases h1 : w = 8 <;> by_cases h2 : w = 16 <;> by_cases h3 : w = 32 <;> simp [kindOf, h1, h2, h3]
 
 theorem cmpStr_nil : cmpStr [] [] = 0 := by decide
 
-theorem keys_of_int {a : Val} (h : 2 ≤ kindOf a ∧ kindOf a ≤ 6) : numKey a = asInt a ∧ strKey a = [] := by
-  cases a with
-  | int w v => exact ⟨rfl, rfl⟩
-  | uint w v => have := kind_uint w v; omega
-  | _ => simp [kindOf] at h
-
-theorem keys_of_uint {a : Val} (h : 7 ≤ kindOf a ∧ kindOf a ≤ 11) : numKey a = asUint a ∧ strKey a = [] := by
-  cases a with
-  | uint w v => exact ⟨rfl, rfl⟩
-  | int w v => have := kind_int w v; omega
-  | _ => simp [kindOf] at h
-
-theorem keys_of_f32 {a : Val} (h : kindOf a = 13) : numKey a = fkey32 (asF32 a) ∧ strKey a = [] := by
-  cases a with
-  | f32 x => exact ⟨rfl, rfl⟩
-  | int w v => have := kind_int w v; omega
-  | uint w v => have := kind_uint w v; omega
-  | _ => simp [kindOf] at h
-
-theorem keys_of_f64 {a : Val} (h : kindOf a = 14) : numKey a = fkey64 (asF64 a) ∧ strKey a = [] := by
-  cases a with
-  | f64 x => exact ⟨rfl, rfl⟩
-  | int w v => have := kind_int w v; omega
-  | uint w v => have := kind_uint w v; omega
-  | _ => simp [kindOf] at h
-
-theorem keys_of_str {a : Val} (h : kindOf a = 24) : numKey a = 0 ∧ strKey a = asStr a := by
-  cases a with
-  | str x => exact ⟨rfl, rfl⟩
-  | int w v => have := kind_int w v; omega
-  | uint w v => have := kind_uint w v; omega
-  | _ => simp [kindOf] at h
-
-theorem keys_of_other {a : Val} (h1 : ¬ (2 ≤ kindOf a ∧ kindOf a ≤ 6)) (h2 : ¬ (7 ≤ kindOf a ∧ kindOf a ≤ 11))
-    (h3 : kindOf a ≠ 13) (h4 : kindOf a ≠ 14) (h5 : kindOf a ≠ 24) : numKey a = 0 ∧ strKey a = [] := by
-  cases a with
-  | int w v => have := kind_int w v; omega
-  | uint w v => have := kind_uint w v; omega
-  | f32 x => simp [kindOf] at h3
-  | f64 x => simp [kindOf] at h4
-  | str x => simp [kindOf] at h5
-  | _ => exact ⟨rfl, rfl⟩
-
-theorem cmpAny_eq_lex (a b : Val) : cmpAny a b = lex cmpKind (lex cmpNum cmpStrKey) a b := by
+/-- two numbers of different kinds go through `compareNumbers` -/
+theorem cmpAny_of_kind_ne {a b : Val} {x y : Num} (hk : kindOf a ≠ kindOf b) (ha : numOf a = some x) (hb : numOf b = some y) :
+    cmpAny a b = cmpNumbers x y := by
   unfold cmpAny
-  simp only
+  simp only [hk, ne_eq, not_false_eq_true, if_true, ha, hb]
+
+/-- on numbers `CompareAny` is the numeric order, whatever the kinds -/
+theorem cmpAny_num {a b : Val} {x y : Num} (ha : numOf a = some x) (hb : numOf b = some y) :
+    cmpAny a b = cmpInt (numOrd x) (numOrd y) := by
   by_cases hk : kindOf a = kindOf b
-  · have h0 : cmpKind a b = 0 := (cmpInt_eq_zero _ _).mpr (by rw [hk])
-    have hl : lex cmpKind (lex cmpNum cmpStrKey) a b = lex cmpNum cmpStrKey a b := by
-      unfold lex; simp [h0]
-    rw [if_neg (by simpa using hk), hl]
-    have hnn : cmpInt 0 0 = 0 := by decide
-    by_cases c1 : 2 ≤ kindOf a ∧ kindOf a ≤ 6
-    · obtain ⟨na, sa⟩ := keys_of_int c1
-      obtain ⟨nb, sb⟩ := keys_of_int (hk ▸ c1)
-      rw [if_pos c1]
-      unfold lex cmpNum cmpStrKey
-      rw [na, nb, sa, sb, cmpStr_nil]; split <;> simp_all
-    rw [if_neg c1]
-    by_cases c2 : 7 ≤ kindOf a ∧ kindOf a ≤ 11
-    · obtain ⟨na, sa⟩ := keys_of_uint c2
-      obtain ⟨nb, sb⟩ := keys_of_uint (hk ▸ c2)
-      rw [if_pos c2]
-      unfold lex cmpNum cmpStrKey
-      rw [na, nb, sa, sb, cmpStr_nil]; split <;> simp_all
-    rw [if_neg c2]
-    by_cases c3 : kindOf a = 13
-    · obtain ⟨na, sa⟩ := keys_of_f32 c3
-      obtain ⟨nb, sb⟩ := keys_of_f32 (hk ▸ c3)
-      rw [if_pos c3]
-      unfold lex cmpNum cmpStrKey
-      rw [na, nb, sa, sb, cmpStr_nil, cmpF32_eq]; split <;> simp_all
-    rw [if_neg c3]
-    by_cases c4 : kindOf a = 14
-    · obtain ⟨na, sa⟩ := keys_of_f64 c4
-      obtain ⟨nb, sb⟩ := keys_of_f64 (hk ▸ c4)
-      rw [if_pos c4]
-      unfold lex cmpNum cmpStrKey
-      rw [na, nb, sa, sb, cmpStr_nil, cmpF64_eq]; split <;> simp_all
-    rw [if_neg c4]
-    by_cases c5 : kindOf a = 24
-    · obtain ⟨na, sa⟩ := keys_of_str c5
-      obtain ⟨nb, sb⟩ := keys_of_str (hk ▸ c5)
-      rw [if_pos c5]
-      unfold lex cmpNum cmpStrKey
-      rw [na, nb, sa, sb, hnn]; simp
-    rw [if_neg c5]
-    obtain ⟨na, sa⟩ := keys_of_other c1 c2 c3 c4 c5
-    obtain ⟨nb, sb⟩ := keys_of_other (hk ▸ c1) (hk ▸ c2) (hk ▸ c3) (hk ▸ c4) (hk ▸ c5)
-    unfold lex cmpNum cmpStrKey
-    rw [na, nb, sa, sb, hnn, cmpStr_nil]; simp
-  · have h0 : cmpKind a b ≠ 0 := by
-      unfold cmpKind; rw [Ne, cmpInt_eq_zero]; omega
-    rw [if_pos (by simpa using hk)]
-    unfold lex; rw [if_pos h0]; rfl
+  · cases a <;> simp only [numOf, Option.some.injEq, reduceCtorEq] at ha <;>
+      cases b <;> simp only [numOf, Option.some.injEq, reduceCtorEq] at hb <;> subst ha <;> subst hb
+    · rename_i w v w' v'
+      have h1 := kind_int w v
+      unfold cmpAny; simp only [hk, ne_eq, not_true_eq_false, if_false]
+      rw [← hk, if_pos (by omega)]
+      simp only [asInt, numOrd]; exact (cmpInt_mul _ _).symm
+    · rename_i w v w' v'
+      have := kind_int w v; have := kind_uint w' v'; omega
+    · rename_i w v x'
+      have := kind_int w v; have h13 : ∀ z, kindOf (Val.f32 z) = 13 := fun _ => rfl; have h14 : ∀ z, kindOf (Val.f64 z) = 14 := fun _ => rfl; simp only [h13, h14] at hk; omega
+    · rename_i w v x'
+      have := kind_int w v; have h13 : ∀ z, kindOf (Val.f32 z) = 13 := fun _ => rfl; have h14 : ∀ z, kindOf (Val.f64 z) = 14 := fun _ => rfl; simp only [h13, h14] at hk; omega
+    · rename_i w v w' v'
+      have := kind_uint w v; have := kind_int w' v'; omega
+    · rename_i w v w' v'
+      have h1 := kind_uint w v
+      unfold cmpAny; simp only [hk, ne_eq, not_true_eq_false, if_false]
+      rw [← hk, if_neg (by omega), if_pos (by omega)]
+      simp only [asUint, numOrd]; exact (cmpInt_mul _ _).symm
+    · rename_i w v x'
+      have := kind_uint w v; have h13 : ∀ z, kindOf (Val.f32 z) = 13 := fun _ => rfl; have h14 : ∀ z, kindOf (Val.f64 z) = 14 := fun _ => rfl; simp only [h13, h14] at hk; omega
+    · rename_i w v x'
+      have := kind_uint w v; have h13 : ∀ z, kindOf (Val.f32 z) = 13 := fun _ => rfl; have h14 : ∀ z, kindOf (Val.f64 z) = 14 := fun _ => rfl; simp only [h13, h14] at hk; omega
+    · rename_i x' w v
+      have := kind_int w v; have h13 : ∀ z, kindOf (Val.f32 z) = 13 := fun _ => rfl; have h14 : ∀ z, kindOf (Val.f64 z) = 14 := fun _ => rfl; simp only [h13, h14] at hk; omega
+    · rename_i x' w v
+      have := kind_uint w v; have h13 : ∀ z, kindOf (Val.f32 z) = 13 := fun _ => rfl; have h14 : ∀ z, kindOf (Val.f64 z) = 14 := fun _ => rfl; simp only [h13, h14] at hk; omega
+    · rename_i x' y'
+      simp [cmpAny, kindOf, asF32]; exact cmpF32_num _ _
+    · simp [kindOf] at hk
+    · rename_i x' w v
+      have := kind_int w v; have h13 : ∀ z, kindOf (Val.f32 z) = 13 := fun _ => rfl; have h14 : ∀ z, kindOf (Val.f64 z) = 14 := fun _ => rfl; simp only [h13, h14] at hk; omega
+    · rename_i x' w v
+      have := kind_uint w v; have h13 : ∀ z, kindOf (Val.f32 z) = 13 := fun _ => rfl; have h14 : ∀ z, kindOf (Val.f64 z) = 14 := fun _ => rfl; simp only [h13, h14] at hk; omega
+    · simp [kindOf] at hk
+    · rename_i x' y'
+      simp [cmpAny, kindOf, asF64]; exact cmpF64_num _ _
+  · rw [cmpAny_of_kind_ne hk ha hb]
+    exact cmpNumbers_eq x y (numOf_wf ha) (numOf_wf hb)
+
+theorem num_kind {a : Val} {x : Num} (h : numOf a = some x) : 3 ≤ kindOf a ∧ kindOf a ≤ 14 ∧ strKey a = [] := by
+  cases a <;> simp only [numOf, reduceCtorEq] at h
+  · rename_i w v; have := kind_int w v; exact ⟨by omega, by omega, rfl⟩
+  · rename_i w v; have := kind_uint w v; exact ⟨by omega, by omega, rfl⟩
+  · simp [kindOf, strKey]
+  · simp [kindOf, strKey]
+
+theorem nonnum_kind {a : Val} (h : numOf a = none) :
+    (kindOf a ≤ 1 ∨ 21 ≤ kindOf a) ∧ (kindOf a = 24 → strKey a = asStr a) ∧ (kindOf a ≠ 24 → strKey a = []) := by
+  cases a <;> simp [numOf] at h <;> simp [kindOf, strKey, asStr]
+
+theorem cmpAny_eq_lex (a b : Val) : cmpAny a b = lex cmpClass (lex cmpNum cmpStrKey) a b := by
+  have hnn : cmpInt 0 0 = 0 := by decide
+  cases hna : numOf a with
+  | some x =>
+    cases hnb : numOf b with
+    | some y =>
+      obtain ⟨_, _, sa⟩ := num_kind hna
+      obtain ⟨_, _, sb⟩ := num_kind hnb
+      rw [cmpAny_num hna hnb]
+      have h0 : cmpClass a b = 0 := by unfold cmpClass classOf; rw [hna, hnb]; exact (by decide : cmpInt ((2 : Nat) : Int) ((2 : Nat) : Int) = 0)
+      unfold lex; rw [if_neg (by simpa using h0)]
+      unfold cmpNum cmpStrKey numKey; rw [hna, hnb, sa, sb, cmpStr_nil]
+      simp only
+      split <;> simp_all
+    | none =>
+      obtain ⟨ka1, ka2, _⟩ := num_kind hna
+      obtain ⟨kb, _, _⟩ := nonnum_kind hnb
+      have hk : kindOf a ≠ kindOf b := by omega
+      have h1 : cmpAny a b = cmpInt (kindOf a) (kindOf b) := by
+        unfold cmpAny; simp only [hk, ne_eq, not_false_eq_true, if_true, hna, hnb]
+      have h2 : cmpClass a b = cmpInt (kindOf a) (kindOf b) := by
+        unfold cmpClass classOf; rw [hna, hnb]; simp only
+        unfold cmpInt
+        rcases kb with kb | kb
+        · rw [if_neg (by omega), if_pos (by omega), if_neg (by omega), if_pos (by omega)]
+        · rw [if_pos (by omega), if_pos (by omega)]
+      have h3 : cmpClass a b ≠ 0 := by rw [h2, Ne, cmpInt_eq_zero]; omega
+      unfold lex; rw [if_pos h3, h1, h2]
+  | none =>
+    cases hnb : numOf b with
+    | some y =>
+      obtain ⟨kb1, kb2, _⟩ := num_kind hnb
+      obtain ⟨ka, _, _⟩ := nonnum_kind hna
+      have hk : kindOf a ≠ kindOf b := by omega
+      have h1 : cmpAny a b = cmpInt (kindOf a) (kindOf b) := by
+        unfold cmpAny; simp only [hk, ne_eq, not_false_eq_true, if_true, hna, hnb]
+      have h2 : cmpClass a b = cmpInt (kindOf a) (kindOf b) := by
+        unfold cmpClass classOf; rw [hna, hnb]; simp only
+        unfold cmpInt
+        rcases ka with ka | ka
+        · rw [if_pos (by omega), if_pos (by omega)]
+        · rw [if_neg (by omega), if_pos (by omega), if_neg (by omega), if_pos (by omega)]
+      have h3 : cmpClass a b ≠ 0 := by rw [h2, Ne, cmpInt_eq_zero]; omega
+      unfold lex; rw [if_pos h3, h1, h2]
+    | none =>
+      obtain ⟨ka, sa1, sa2⟩ := nonnum_kind hna
+      obtain ⟨kb, sb1, sb2⟩ := nonnum_kind hnb
+      have hc : cmpClass a b = cmpInt (kindOf a) (kindOf b) := by unfold cmpClass classOf; rw [hna, hnb]
+      have hn : cmpNum a b = 0 := by unfold cmpNum numKey; rw [hna, hnb]; exact hnn
+      by_cases hk : kindOf a = kindOf b
+      · have h0 : cmpClass a b = 0 := by rw [hc]; exact (cmpInt_eq_zero _ _).mpr (by rw [hk])
+        unfold lex; rw [if_neg (by simpa using h0), if_neg (by simpa using hn)]
+        unfold cmpAny
+        simp only [hk, ne_eq, not_true_eq_false, if_false]
+        rw [if_neg (by omega), if_neg (by omega), if_neg (by omega), if_neg (by omega)]
+        unfold cmpStrKey
+        by_cases h24 : kindOf b = 24
+        · rw [if_pos h24, sa1 (by omega), sb1 h24]
+        · rw [if_neg h24, sa2 (by omega), sb2 h24, cmpStr_nil]
+      · have h3 : cmpClass a b ≠ 0 := by rw [hc, Ne, cmpInt_eq_zero]; omega
+        unfold lex; rw [if_pos h3, hc]
+        unfold cmpAny; simp only [hk, ne_eq, not_false_eq_true, if_true, hna, hnb]
 
 theorem tpc_cmpAny : TPC cmpAny := by
-  have h : TPC (lex cmpKind (lex cmpNum cmpStrKey)) :=
-    tpc_lex (tpc_of_key (fun v => (kindOf v : Int)))
+  have h : TPC (lex cmpClass (lex cmpNum cmpStrKey)) :=
+    tpc_lex (tpc_of_key (fun v => (classOf v : Int)))
       (tpc_lex (tpc_of_key numKey) ⟨fun a b => tpc_cmpStr.antisymm _ _, fun a b d => tpc_cmpStr.trans _ _ _⟩)
   constructor
   · intro a b; rw [cmpAny_eq_lex, cmpAny_eq_lex]; exact h.antisymm a b
@@ -441,6 +840,54 @@ theorem take_drop_min {α : Type} (l : List α) (off lim : Nat) :
       rw [List.take_of_length_le (by simp; omega), List.take_of_length_le (by simp)]
   · rw [Nat.min_eq_right (by omega), Nat.min_eq_right (by omega)]
     simp [List.drop_of_length_le (show l.length ≤ off by omega)]
+
+
+/-! ### rows keep the order of the back-filled list; a page is a sublist -/
+
+theorem mapExcept_map {α β γ : Type} (f : α → Except Unit β) (ka : α → γ) (kb : β → γ)
+    (hf : ∀ a b, f a = .ok b → kb b = ka a) (l : List α) (bs : List β) (h : mapExcept f l = .ok bs) :
+    bs.map kb = l.map ka := by
+  induction l generalizing bs with
+  | nil => simp only [mapExcept, Except.ok.injEq] at h; subst h; rfl
+  | cons a l ih =>
+    simp only [mapExcept] at h
+    cases hfa : f a with
+    | error e => simp [hfa] at h
+    | ok b =>
+      simp only [hfa] at h
+      cases hm : mapExcept f l with
+      | error e => simp [hm] at h
+      | ok bs' =>
+        simp only [hm, Except.ok.injEq] at h
+        subst h
+        simp [hf a b hfa, ih bs' hm]
+
+theorem mapExcept_pairwise {α β γ : Type} (f : α → Except Unit β) (ka : α → γ) (kb : β → γ) (R : γ → γ → Prop)
+    (hf : ∀ a b, f a = .ok b → kb b = ka a) (l : List α) (bs : List β) (h : mapExcept f l = .ok bs)
+    (hl : l.Pairwise (fun x y => R (ka x) (ka y))) : bs.Pairwise (fun x y => R (kb x) (kb y)) := by
+  have := mapExcept_map f ka kb hf l bs h
+  rw [← List.pairwise_map (f := kb) (R := R), this, List.pairwise_map]
+  exact hl
+
+theorem goSlice_sublist {α : Type} (l : List α) (lo hi : Int) (q : List α) (h : goSlice l lo hi = .ok q) : q.Sublist l := by
+  unfold goSlice at h
+  split at h
+  · simp only [Except.ok.injEq] at h; subst h
+    exact (List.drop_sublist _ _).trans (List.take_sublist _ _)
+  · cases h
+
+/-- the insertion sort is stable, in particular the identity on a list that is in order already -/
+theorem isort_id_of_sorted {α : Type} (c : α → α → Int) (l : List α) (h : l.Pairwise (fun x y => c x y ≤ 0)) :
+    isort c l = l := by
+  induction l with
+  | nil => rfl
+  | cons a l ih =>
+    rw [List.pairwise_cons] at h
+    show insertBy c a (isort c l) = a :: l
+    rw [ih h.2]
+    cases l with
+    | nil => rfl
+    | cons x l' => simp only [insertBy]; rw [if_pos (h.1 x (by simp))]
 
 /-! ### select: documents as trees, paths -/
 
@@ -1150,31 +1597,51 @@ theorem sortAsc_sorted (l : List Id) : (sortAsc l).Pairwise (· ≤ ·) := by
 /-! ### the select loop -/
 
 theorem selectDoc_spec (d : Doc) (ps done : List (List String)) (acc : Doc) (hi : SelInv d done acc)
-    (hstar : ["*"] ∉ ps) (hok : ∀ p ∈ ps, p ≠ [] ∧ queryVal (.map d) p ≠ .error ()) :
+    (hstar : ["*"] ∉ ps) (hok : ∀ p ∈ ps, p ≠ []) :
     ∃ m, selectDoc d ps acc = .ok m ∧ SelInv d (ps.reverse ++ done) m := by
   induction ps generalizing done acc with
   | nil => exact ⟨acc, rfl, by simpa using hi⟩
   | cons p rest ih =>
     have hp : p ≠ ["*"] := fun h => hstar (by simp [h])
-    obtain ⟨hpne, hperr⟩ := hok p (by simp)
+    have hpne := hok p (by simp)
     have hrest_star : ["*"] ∉ rest := fun h => hstar (List.mem_cons_of_mem _ h)
-    have hrest_ok : ∀ q ∈ rest, q ≠ [] ∧ queryVal (.map d) q ≠ .error () := fun q hq => hok q (List.mem_cons_of_mem _ hq)
+    have hrest_ok : ∀ q ∈ rest, q ≠ [] := fun q hq => hok q (List.mem_cons_of_mem _ hq)
+    -- a path the document does not resolve (absent, or running into a non-map) leaves `acc` alone
+    have hskip : (∀ u, queryVal (.map d) p ≠ .ok (some u)) →
+        ∃ m, selectDoc d rest acc = .ok m ∧ SelInv d (rest.reverse ++ (p :: done)) m := by
+      intro hno
+      have hi' : SelInv d (p :: done) acc := ⟨hi.faithful, fun q hqm u hu => by
+        rcases List.mem_cons.mp hqm with rfl | hqm
+        · exact absurd hu (hno u)
+        · exact hi.selected q hqm u hu⟩
+      exact ih (p :: done) acc hi' hrest_star hrest_ok
     simp only [selectDoc, hp, if_false]
     cases hq : queryVal (.map d) p with
-    | error e => exact absurd hq hperr
+    | error e =>
+      obtain ⟨m, hm, hinv⟩ := hskip (by rw [hq]; intro u h; cases h)
+      exact ⟨m, hm, by simpa using hinv⟩
     | ok o =>
       cases o with
       | none =>
-        have hi' : SelInv d (p :: done) acc := ⟨hi.faithful, fun q hqm u hu => by
-          rcases List.mem_cons.mp hqm with rfl | hqm
-          · rw [hq] at hu; cases hu
-          · exact hi.selected q hqm u hu⟩
-        obtain ⟨m, hm, hinv⟩ := ih (p :: done) acc hi' hrest_star hrest_ok
+        obtain ⟨m, hm, hinv⟩ := hskip (by rw [hq]; intro u h; cases h)
         exact ⟨m, hm, by simpa using hinv⟩
       | some v =>
         obtain ⟨acc', hs⟩ := setNested_ok hi.faithful hq hpne
         simp only [hs]
         obtain ⟨m, hm, hinv⟩ := ih (p :: done) acc' (selInv_step hi hpne hq hs) hrest_star hrest_ok
         exact ⟨m, hm, by simpa using hinv⟩
+
+/-- `Query` finds a value exactly when `AccessNestedProperty` does -/
+theorem queryVal_some_iff (v : Val) (p : List String) (u : Val) : queryVal v p = .ok (some u) ↔ accessVal v p = some u :=
+  ⟨queryVal_ok_access, access_ok_query⟩
+
+theorem mapExcept_ok {α β : Type} (f : α → Except Unit β) (l : List α) (h : ∀ a ∈ l, ∃ b, f a = .ok b) :
+    ∃ bs, mapExcept f l = .ok bs ∧ bs.length = l.length := by
+  induction l with
+  | nil => exact ⟨[], rfl, rfl⟩
+  | cons a l ih =>
+    obtain ⟨b, hb⟩ := h a (by simp)
+    obtain ⟨bs, hbs, hl⟩ := ih (fun x hx => h x (List.mem_cons_of_mem _ hx))
+    exact ⟨b :: bs, by simp [mapExcept, hb, hbs], by simp [hl]⟩
 
 end Sema.C06
